@@ -145,6 +145,11 @@ AUDIT2 = {
  "C15": " When the two span readings differ and the longer cannot be stepped through, the short count or a correct 1000-item prefix beyond it is required.",
  "C19": " %w and %y pinned, name tokens without a separator and %y formats in the parse-back structures (second audit round).",
 }
+# API-coverage review: every pub fn no check called
+for _k, _v in {"C05": " c05.float_ctor: from_<scale>_seconds/_days of the six scales on a 76-value float lattice; to_tai_parts / from_tai_parts / to_duration_since_j1900 on every lattice point.",
+               "C06": " c06.float_ctor: from_utc_seconds/_days; from_utc_duration builds every other UTC epoch.",
+               "C07": " c07.float_ctor: from_et_seconds / from_tdb_seconds; the days/centuries-since-J2000 accessors are compared with the duration accessors."}.items():
+    AUDIT2[_k] = AUDIT2.get(_k, "") + _v
 for _k, _v in AUDIT2.items():
     AUDIT[_k] = AUDIT.get(_k, "") + _v
 for _k, _v in AUDIT.items():
